@@ -92,7 +92,7 @@ func NewExec(w *World, fn *ssa.Function, fc *FuncContract, name string) *Exec {
 		Obligs: map[string]*Oblig{}, Abstracted: map[string]bool{}, Inlined: map[string]bool{}, ByContract: map[string]bool{},
 		UserCalls: map[string]bool{}, maxPaths: 4000, covers: map[string]bool{}, Spawned: map[string]int{},
 		otherLoops: map[*ssa.Function]map[*ssa.BasicBlock]*loopInfo{}, specDeclared: map[string]bool{}, entryParams: map[*ssa.Parameter]SymVal{},
-		heapSorts: map[string]string{}, implLocal: map[string]types.Type{}}
+		heapSorts: map[string]string{}, implLocal: map[string]types.Type{}, ghostTypes: map[string]types.Type{}}
 	x.regStdHeaps()
 	for _, l := range w.CS.RawSMT {
 		x.D.Raw(l)
@@ -149,7 +149,16 @@ func (x *Exec) VerifyFunction() (res *FuncResult) {
 	if x.fc != nil {
 		env := x.envAt(st)
 		env.paramsEntry = true
-		for _, g := range x.fc.Ghosts {
+		for i := range x.fc.Ghosts {
+			g := &x.fc.Ghosts[i]
+			if !isSMTSort(g.Sort) && !strings.HasPrefix(g.Sort, "S_") {
+				t := x.resolveType(env, g.Init, g.Sort)
+				g.GoType = g.Sort
+				g.Sort = x.D.SortOf(t)
+			}
+			if g.GoType != "" {
+				x.ghostTypes[g.Name] = x.resolveType(env, g.Init, g.GoType)
+			}
 			v := x.evalTerm(env, g.Init)
 			if v.Sort != g.Sort {
 				x.specFail(g.Init, "ghost %s declared %s but initialised with %s", g.Name, g.Sort, v.Sort)
@@ -199,6 +208,14 @@ func (x *Exec) VerifyFunction() (res *FuncResult) {
 }
 
 func (x *Exec) finish(res *FuncResult) {
+	func() {
+		defer func() {
+			if r := recover(); r != nil && res.Err == "" {
+				res.Err = fmt.Sprintf("axiom error: %v", r)
+			}
+		}()
+		x.relevantAxioms()
+	}()
 	x.implAxioms()
 	x.globalAxioms()
 	res.Paths = x.paths + 1
@@ -316,6 +333,12 @@ func SolveAll(r *Runner, results []*FuncResult) {
 					b.WriteString("))\n(check-sat)\n")
 					if o.Expect == "sat" {
 						vc.Res = r.SolveT(b.String(), 1500, true)
+					} else if vc.Goal.S == "false" {
+						// forbidden operation: the obligation is that the path is unreachable
+						vc.Res = r.SolveT(b.String(), 3000, true)
+						if vc.Res.Status != "unsat" {
+							vc.Res = &SolveResult{Status: "sat", Solver: vc.Res.Solver, Output: "reachability of a forbidden operation not refuted (" + vc.Res.Status + ")", Millis: vc.Res.Millis, AllRuns: vc.Res.AllRuns}
+						}
 					} else {
 						vc.Res = r.Solve(b.String())
 					}
@@ -335,17 +358,26 @@ func SolveAll(r *Runner, results []*FuncResult) {
 			}
 			o.Status = "discharged"
 			back := map[string]bool{}
+			if o.Expect == "sat" {
+				// cover: at least one path reaching the point must be satisfiable (not refuted)
+				reach := false
+				for _, vc := range o.VCs {
+					o.Millis += vc.Res.Millis
+					back[vc.Res.Solver] = true
+					if vc.Res.Status != "unsat" {
+						reach = true
+					}
+				}
+				if !reach {
+					o.Status = "failed"
+					o.Detail = "vacuity: every path condition reaching this point is unsatisfiable"
+				}
+				o.Backend = strings.Join(sortedKeys(back), "+")
+				continue
+			}
 			for _, vc := range o.VCs {
 				o.Millis += vc.Res.Millis
 				back[vc.Res.Solver] = true
-				if o.Expect == "sat" {
-					// cover: must be satisfiable (or at least not refuted)
-					if vc.Res.Status == "unsat" {
-						o.Status = "failed"
-						o.Detail = "vacuity: path condition is unsatisfiable"
-					}
-					continue
-				}
 				switch vc.Res.Status {
 				case "unsat":
 				case "sat":
